@@ -172,6 +172,8 @@ fn run_sweeper_loop(
     shutdown: Arc<AtomicBool>,
     stats: TtlSweeperStats,
 ) {
+    #[cfg(feoxdb_verif)]
+    crate::verif::sched::register_background("sweeper", 0);
     while !shutdown.load(Ordering::Acquire) {
         // Sleep between runs
         thread::sleep(config.sleep_interval);
@@ -257,6 +259,8 @@ fn sample_and_expire_batch(store: &Arc<FeoxStore>, config: &TtlConfig) -> (u64, 
         if ttl_expiry > 0 && ttl_expiry < now {
             #[cfg(test)]
             crate::test_hooks::pause_at(crate::test_hooks::TTL_AFTER_EXPIRED_SAMPLE);
+            #[cfg(feoxdb_verif)]
+            crate::verif::sched("sweep_remove");
 
             let old_value_len = record.value_len;
             let record_size = record.calculate_size();
@@ -280,6 +284,8 @@ fn sample_and_expire_batch(store: &Arc<FeoxStore>, config: &TtlConfig) -> (u64, 
             };
 
             if retired {
+                #[cfg(feoxdb_verif)]
+                crate::verif::sched("sweep_post");
                 store.remove_cached(&key, &record);
                 store.note_expired_record(record_size);
                 expired += 1;
